@@ -119,7 +119,9 @@ CHECKS = {
               "model-checked for ReplayIsPrefix / SyncedSurvive / CleanReplayIsAll; WAL-only sessions of the real code run under strace, the image "
               "after every completed mutating syscall and after every returned call is replayed by the real replayer, and TLC (WALTrace.tla) "
               "requires a successful replay of a prefix containing every synced record, a write+fsync inside every AppendSync, and a complete "
-              "replay of the closed log (file size limits below one record, records around / above the write buffer, 100+ files)."),
+              "replay of the closed log (file size limits below one record, records around / above the write buffer, 100+ files); the last "
+              "file of the closed log is additionally cut at every byte offset near its head and tail (reachable with buffered appends): replay "
+              "must succeed with a prefix that only grows with the file."),
         design_ref="§5 C07",
         note="kill -9 model; single appender; needs ptrace",
         technique="TLA+ spec + TLC exhaustive check; strace crash-image enumeration of the real WAL judged by TLC",
@@ -183,10 +185,13 @@ CHECKS = {
         text=("SimpleDB.tla with 2 clients, two-step Get, database lock, unbuffered hand-off, flusher and compactor is model-checked over all "
               "interleavings (GetLinearizable, NoLimboWhenUnlocked, ReadsLikeMap); real concurrent histories (4-8 goroutines, tiny memstores, "
               "background compaction, gate delays, GOMAXPROCS 1..16) are validated white-box against SimpleDBTrace.tla and black-box, per "
-              "key, by KVLinTrace.tla where TLC searches a linearization of the recorded invocation/response pairs."),
+              "key, by KVLinTrace.tla where TLC searches a linearization of the recorded invocation/response pairs; complete schedules of the "
+              "concurrent model simulated by TLC (GenSimpleDBConc.tla: which thread takes which step in which order) are executed on the real "
+              "database by releasing its threads one step at a time through the gates - every model-enabled step must complete and every Get "
+              "must reply what the model computed for that interleaving."),
         design_ref="§5 C05",
-        note="schedules on the real code are sampled; exhaustive interleavings only on the model; trusts hook placement for the white-box order",
-        technique="TLA+ spec + TLC exhaustive interleavings; white-box trace validation + black-box linearizability search by TLC",
+        note="exhaustive interleavings only on the model; on the real code: TLC-simulated schedules replayed through gates + sampled free-running histories; trusts hook placement for the white-box order",
+        technique="TLA+ spec + TLC exhaustive interleavings; TLC-generated schedules replayed into the real code; white-box trace validation + black-box linearizability search by TLC",
     ),
     "C06": dict(
         category="model_checking",
@@ -204,7 +209,8 @@ CHECKS = {
         text=("SimpleDBApi.tla models the validation layer with the WAL as state (RejectedIsNoOp, RecoveryAgrees, SameVerdict) and is "
               "model-checked over all argument classes x flavours x observation actions; TLC-generated programs are replayed through both "
               "API flavours with non-UTF-8 / 70 KB / marker-like / empty keys, observed directly, after flush, after clean reopen and on "
-              "crash images recovered by a separate process; all judged by TLC on SimpleDBTrace.tla."),
+              "crash images recovered by a separate process; sessions opened with the direct-I/O WAL (every mutation refused in synchronous "
+              "mode: no effect now, after restart, after a crash; normal operation in asynchronous mode); all judged by TLC on SimpleDBTrace.tla."),
         design_ref="§5 C17",
         note="crash image = directory copied while the quiescent database is open; Delete/Get with empty keys only need to agree between flavours",
         technique="TLA+ spec + TLC exhaustive check; TLC-generated programs replayed; trace validation by TLC",
